@@ -744,21 +744,17 @@ impl Decoder for RawResponseMessageDecoder {
 
         let path = RelativeAddress::new(node, lane);
         let tag = (body_len_and_tag & OP_MASK) >> OP_SHIFT;
+        // The whole frame, including any body, is consumed whatever the kind.
+        let body = src.split_to(body_len).freeze();
         match tag {
-            LINKED => Ok(Some(BytesResponseMessage::linked(target, path))),
-            SYNCED => Ok(Some(BytesResponseMessage::synced(target, path))),
+            LINKED if body.is_empty() => Ok(Some(BytesResponseMessage::linked(target, path))),
+            SYNCED if body.is_empty() => Ok(Some(BytesResponseMessage::synced(target, path))),
             UNLINKED => {
-                let body = if body_len == 0 {
-                    None
-                } else {
-                    Some(src.split_to(body_len).freeze())
-                };
+                let body = if body.is_empty() { None } else { Some(body) };
                 Ok(Some(BytesResponseMessage::unlinked(target, path, body)))
             }
-            _ => {
-                let body = src.split_to(body_len).freeze();
-                Ok(Some(BytesResponseMessage::event(target, path, body)))
-            }
+            EVENT => Ok(Some(BytesResponseMessage::event(target, path, body))),
+            _ => Err(std::io::Error::from(std::io::ErrorKind::InvalidData)),
         }
     }
 }
@@ -795,14 +791,14 @@ impl Decoder for RawRequestMessageDecoder {
 
         let path = RelativeAddress::new(node, lane);
         let tag = (body_len_and_tag & OP_MASK) >> OP_SHIFT;
+        // The whole frame, including any body, is consumed whatever the kind.
+        let body = src.split_to(body_len).freeze();
         match tag {
-            LINK => Ok(Some(RequestMessage::link(origin, path))),
-            SYNC => Ok(Some(RequestMessage::sync(origin, path))),
-            UNLINK => Ok(Some(RequestMessage::unlink(origin, path))),
-            _ => {
-                let body = src.split_to(body_len).freeze();
-                Ok(Some(RequestMessage::command(origin, path, body)))
-            }
+            LINK if body.is_empty() => Ok(Some(RequestMessage::link(origin, path))),
+            SYNC if body.is_empty() => Ok(Some(RequestMessage::sync(origin, path))),
+            UNLINK if body.is_empty() => Ok(Some(RequestMessage::unlink(origin, path))),
+            COMMAND => Ok(Some(RequestMessage::command(origin, path, body))),
+            _ => Err(std::io::Error::from(std::io::ErrorKind::InvalidData)),
         }
     }
 }
